@@ -25,7 +25,7 @@ func methodMeta(res *document.ResolutionResult) document.Metadata {
 
 // Harness_C17_ResolveLongForm: a long-form DID built from a valid create request resolves offline to a document
 // whose id is that DID, with the short form as equivalent id and the request's commitments; every tampering
-// (other namespace sharing a prefix, short form, non-canonical or padded initial state, mismatching suffix) is rejected.
+// (other namespace sharing a prefix, short form, non-canonical or padded initial state, mismatching suffix, DID URL tails) is rejected.
 func Harness_C17_ResolveLongForm() {
 	ns := "did:" + verifrt.AnyAtom("method")
 	h, err := New(ns)
@@ -35,8 +35,14 @@ func Harness_C17_ResolveLongForm() {
 	}
 	c, suffix, state := c17Create("c")
 	did := ns + ":" + suffix + ":" + state
-	tamper := verifrt.Choose("tamper", 10)
+	tamper := verifrt.Choose("tamper", 13)
 	switch tamper {
+	case 10: // DID URL tails behind the initial state: fragment, query, path
+		did = did + "#" + verifrt.AnyAtom("fragment")
+	case 11:
+		did = did + "?service=" + verifrt.AnyAtom("query")
+	case 12:
+		did = did + "/" + verifrt.AnyAtom("path")
 	case 1: // another method whose name has the handler's as a prefix
 		did = ns + "x:" + suffix + ":" + state
 	case 2: // short form
